@@ -956,6 +956,15 @@ func c16MParamsDraw(rng *rand.Rand, specDriven bool) c16MParams {
 	return p
 }
 
+// c16Witness: at most four witnesses per signature and process are logged (the evidence log keeps
+// 200 violations per process; a frequent signature must not crowd out a new one).
+var c16Witnesses = map[string]int{}
+
+func c16Witness(sig string) bool {
+	c16Witnesses[sig]++
+	return c16Witnesses[sig] <= 4
+}
+
 func c16Report(c *evlog.Case, r *c16MRun, p any) {
 	if r.err != "" {
 		c.Violation(r.sig, r.err, map[string]any{"params": p, "history": r.trace})
@@ -966,7 +975,7 @@ func c16Report(c *evlog.Case, r *c16MRun, p any) {
 func TestVerifC16Manager(t *testing.T) {
 	l := evlog.Open("C16")
 	defer l.Close()
-	c16ManagerBatches(l, false, l.Pick(120, 1600))
+	c16ManagerBatches(l, false, l.Pick(120, 8000))
 }
 
 // TestVerifC16SpecDriven: the uQUIC spec-driven client; the advertised limit comes from the spec.
@@ -1063,7 +1072,7 @@ func TestVerifC16SpecDriven(t *testing.T) {
 		}()
 	}
 
-	c16ManagerBatches(l, true, l.Pick(80, 1000))
+	c16ManagerBatches(l, true, l.Pick(80, 5000))
 }
 
 func c16ManagerBatches(l *evlog.Log, specDriven bool, batches int) {
@@ -1083,7 +1092,6 @@ func c16ManagerBatches(l *evlog.Log, specDriven bool, batches int) {
 		}
 		rng := l.Rand(id)
 		tot := map[string]int64{}
-		reportedSigs := map[string]int{}
 		for h := 0; h < perBatch; h++ {
 			p := c16MParamsDraw(rng, specDriven)
 			r, fp, cnt := c16RunManagerHistory(rng, p)
@@ -1092,8 +1100,7 @@ func c16ManagerBatches(l *evlog.Log, specDriven bool, batches int) {
 				tot[k] += v
 			}
 			if r.err != "" {
-				reportedSigs[r.sig]++
-				if reportedSigs[r.sig] <= 2 { // two witnesses per signature and batch are enough
+				if c16Witness(r.sig) {
 					c16Report(c, r, p)
 				} else {
 					tot["violations_not_logged_same_signature"]++
@@ -1518,7 +1525,7 @@ func TestVerifC16Generator(t *testing.T) {
 	l := evlog.Open("C16")
 	defer l.Close()
 	const perBatch = 400
-	batches := l.Pick(100, 1200)
+	batches := l.Pick(100, 5000)
 	for b := 0; b < batches; b++ {
 		if !l.Mine(b) {
 			continue
@@ -1530,7 +1537,6 @@ func TestVerifC16Generator(t *testing.T) {
 		}
 		rng := l.Rand(id)
 		tot := map[string]int64{}
-		sigs := map[string]int{}
 		for h := 0; h < perBatch; h++ {
 			p := c16GParams{
 				PeerLimit: 2 + rng.IntN(7),
@@ -1554,8 +1560,7 @@ func TestVerifC16Generator(t *testing.T) {
 				tot[k] += v
 			}
 			if r.err != "" {
-				sigs[r.sig]++
-				if sigs[r.sig] <= 2 {
+				if c16Witness(r.sig) {
 					c.Violation(r.sig, r.err, map[string]any{"params": p, "history": r.trace})
 				} else {
 					tot["violations_not_logged_same_signature"]++
@@ -1568,4 +1573,3 @@ func TestVerifC16Generator(t *testing.T) {
 		c.End()
 	}
 }
-
